@@ -8,7 +8,7 @@ from typing import Dict, List, Optional, Set, Tuple
 from ..core import astutil as A
 from ..core.index import AnalysisError, FuncInfo
 from ..selftest import M
-from .common import may_conds, is_early_exit_guard, T, attr_stores, calls_named, conds, every_origin, facts, need, subscript_stores, where
+from .common import may_conds, conjuncts, is_early_exit_guard, T, attr_stores, calls_named, conds, every_origin, facts, need, subscript_stores, where
 
 INS = "ufo2ft.instantiator"
 I = f"{INS}.Instantiator"
@@ -333,7 +333,12 @@ def r196(prog, chk):
         need(len(lp) == 1, f"cannot interpret {f.short}")
         sv = A.target_names(lp[0].target)[0]
         conts = [s for s in ast.walk(lp[0]) if isinstance(s, ast.Continue)]
-        ok = len(conts) == 1 and T(ix.parent(conts[0]).test) == f"{sv}.layerName is not None and {sv} is not {f.params()[0]}.default"
+        ok = len(conts) == 1
+        if ok:
+            par = ix.parent(conts[0])
+            gs_ = [g for g in conds(prog, f, conts[0]) if isinstance(par, ast.If) and (g.raw if g.raw is not None else g.test) is par.test]
+            lits = conjuncts(gs_[0]) if gs_ else None
+            ok = lits is not None and {T(x) for x in lits} == {f"{sv}.layerName is not None", f"{sv} is not {f.params()[0]}.default"}
         app = [c for c in A.calls_in(lp[0]) if isinstance(c.func, ast.Attribute) and c.func.attr == "append"]
         ok = ok and len(app) == 1 and isinstance(app[0].args[0], ast.Tuple) and f"{sv}.location" in T(_def_value(prog, f, app[0].args[0].elts[0])) and f"{sv}.font." in T(app[0].args[0].elts[1])
         chk.ob("R19.6", f"{f.short}|every source except non-default sparse layers contributes (its location, its data)", ok, where(f, lp[0]), detail=f"skip: {T(ix.parent(conts[0]).test) if conts else ''}",
